@@ -294,10 +294,15 @@ func digestFilesWithOverlay(paths []string, overlay map[string][]byte) ([]fileDi
 		if err != nil {
 			return nil, fmt.Errorf("stat file %q: %w", path, err)
 		}
+		hash, err := digestFile(path)
+		if err != nil {
+			return nil, fmt.Errorf("hash file %q: %w", path, err)
+		}
 		digests = append(digests, fileDigest{
 			Path:    path,
 			Size:    info.Size(),
 			ModTime: info.ModTime().UnixNano(),
+			Hash:    hash,
 		})
 	}
 
